@@ -1009,20 +1009,23 @@ fn op_fallback_other() {
 //                                                                                               [op.poll.done.ok]
 // Any other situation (negative results, restart) is outside the contract: the hook declines and the real body runs.
 // =========================================================================================
+/// The switch is read first and on its own so that CBMC folds it: with the contract on, the real body of `poll` is
+/// syntactically unreachable (not merely infeasible) and stays out of the cone.
+pub(crate) fn poll_contract_on<O: OpResult>() -> bool {
+    let on = unsafe { env::E.poll_contract != 0 };
+    on && !O::IS_MULTISHOT
+}
 pub(crate) fn poll_contract<T, O, R, A, Out>(
     target: &T,
     state: &mut State<O, R, A>,
     ctx: &mut task::Context<'_>,
     fill_submission: &impl Fn(&T, &mut R, &mut A, &mut Submission),
     map_ok: &impl Fn(&T, R, OpReturn) -> Out,
-) -> Option<Poll<io::Result<Out>>>
+) -> Poll<io::Result<Out>>
 where
     T: OpTarget,
     O: OpResult,
 {
-    if unsafe { env::E.poll_contract } == 0 || O::IS_MULTISHOT {
-        return None;
-    }
     let user_data = state.user_data();
     let data = unsafe { state.data.as_mut() };
     let mut shared = crate::lock(&data.shared);
@@ -1045,11 +1048,11 @@ where
                     submissions.wait_for_submission(ctx.waker().clone());
                 }
             }
-            Some(Poll::Pending)
+            Poll::Pending
         }
         Status::Running { .. } => {
             set_waker(&mut shared.waker, ctx.waker());
-            Some(Poll::Pending)
+            Poll::Pending
         }
         Status::Done { results } => {
             let r = results.next().unwrap();
@@ -1059,11 +1062,11 @@ where
             shared.status = Status::Complete;
             drop(shared);
             let resources = unsafe { data.tail.resources.get().cast::<R>().read() };
-            Some(Poll::Ready(Ok(map_ok(target, resources, (r.flags, r.result as u32)))))
+            Poll::Ready(Ok(map_ok(target, resources, (r.flags, r.result as u32))))
         }
         _ => {
             assert!(false, "poll_contract used outside its precondition (Dropped/Complete)");
-            Some(Poll::Pending)
+            Poll::Pending
         }
     }
 }
